@@ -67,6 +67,19 @@ func VerifC02Step() {
 			}
 		}
 	}
+	// known finding: a state implied through Add relations (not called) keeps a state it Removes
+	impliedRemover := false
+	for _, p := range post {
+		if verifHas(called, p) && mt != 1 {
+			continue
+		}
+		for _, r := range schema[p].Remove {
+			if r != p && verifHas(post, r) {
+				impliedRemover = true
+			}
+		}
+	}
+	vKnown("c02-remove-by-implied-state-not-enforced", impliedRemover)
 	vAssert("require-closed", reqOK)
 	vAssert("no-remove-conflict", remOK)
 
